@@ -106,6 +106,8 @@ def gen_program(rng, mode, fix, max_iter):
             ops += ["ozg", "fwd 1", "bwd", "step 0", "step 0"]   # processed-flag branch
         else:
             ops += [zg, "fwd 1", "bwd"]
+    if mode in ("hooks", "functorch") and rng.random() < 0.3:
+        ops.append("fwd 1")                        # a graph in flight across the unwrap: backpropagated afterwards
     if mode != "ew" and rng.random() < 0.2:
         ops.append("hooks 0")                      # unwrapped while the hooks are disabled (not: removed)
     ops.append("unwrap " + fix)
@@ -232,6 +234,22 @@ def transparency_oracle(case, known_ok=()):
                 fails.append(("C19:unwrap-returns-other-object", "to_standard_module() did not return the wrapped module object", {}))
     if real.unwrapped is None:
         return fails
+    # ---- a graph built through the wrapper before unwrapping still backpropagates like plain torch (no Opacus hook fires on it)
+    for loss in getattr(real, "inflight", []):
+        try:
+            want = torch.autograd.grad(loss, [p for p in real.params if p.requires_grad], retain_graph=True, allow_unused=True)
+            for p in real.params:
+                p.grad = None
+            loss.backward()
+        except Exception as e:  # noqa: BLE001
+            fails.append((f"C19:post-unwrap-backward-raises:{type(e).__name__}", f"forward through the wrapped module ({mode}), to_standard_module(), then loss.backward(): raised {type(e).__name__}: {str(e)[:160]} (a never-wrapped module backpropagates)", {}))
+            break
+        got = [p.grad for p in real.params if p.requires_grad]
+        if any((g is None) != (w is None) or (g is not None and not bit_equal(g, w)) for g, w in zip(got, want)):
+            fails.append(("C19:post-unwrap-backward-grads", f"forward through the wrapped module ({mode}), to_standard_module(), then loss.backward(): p.grad differs from torch.autograd.grad of the same graph", {}))
+            break
+    for p in real.params:
+        p.grad = None
     # ---- attribute-set diff against a pristine twin
     left = {}
     for i, p in enumerate(real.params):
